@@ -145,6 +145,9 @@ def run(chk, args):
     corpus = lib.os.path.join(lib.VERIF, "corpus", "C01.json")
     if lib.os.path.exists(corpus):
         cases = json.load(open(corpus)) + cases
+    for i, c in enumerate(cases):
+        if i % 5 == 3 and "custom_cores" not in c:
+            c["custom_cores"] = True       # the caller uses its own name for the core resource
     chunks = [cases[i:i + 10] for i in range(0, len(cases), 10)]
     outs = [o for part in chk.impl_parallel("impl_c01.py", chunks, timeout=3000) for o in part]
     ok_cases = []
@@ -156,6 +159,7 @@ def run(chk, args):
             continue
         chk.count("stream:" + c.get("stream", "general"))
         chk.count("mode:" + c["mode"])
+        chk.count("custom-core-resource:" + str(bool(c.get("custom_cores"))))
         chk.count("placer:" + c["placer"])
         chk.count("status:" + o["status"] + (":" + o["exc"] if o["status"] == "raised" else ""))
         if o["status"] == "raised":
